@@ -92,3 +92,20 @@ Theorem C20_metadata_reads_after_validation O data ord s ks : MetaFacts.well_typ
   MetaModel.reads O s ks = map (fun k => MetaModel.compute O k (MetaBase.lookup k data)) ks.
 Proof. exact (C17.C17_reads_after_validation O data ord s ks). Qed.
 Print Assumptions C20_metadata_reads_after_validation.
+
+(* ---------------- supply order of the clause LIST (not only iteration order of the stored frozenset) ---------------- *)
+Require SetsSupply SetsLaws SetsLink.
+(* str(): any two supply orders of the same Specifier objects print alike - provided == members are the same object text ("literal":
+   no two members that are equal as specifiers but spelled differently; without it the statement is false: finding D33, refuted below) *)
+Theorem C20_set_str_supply_order l l' p : Permutation l l' -> SetsLaws.literal l ->
+  SetsModel.set_str (SetsModel.SpecifierSet_of l p) = SetsModel.set_str (SetsModel.SpecifierSet_of l' p).
+Proof. exact (SetsSupply.set_str_supply_order l l' p). Qed.
+Print Assumptions C20_set_str_supply_order.
+(* .prereleases, contains and filter: any two supply orders behave alike - provided == members carry the same pre-release setting
+   ("coherent"; without it the statement is false: finding D39) *)
+Theorem C20_set_behaviour_supply_order l l' p : Permutation l l' -> Forall SetsLink.built l -> SetsSupply.coherent l ->
+  SetsModel.set_pre (SetsModel.SpecifierSet_of l p) = SetsModel.set_pre (SetsModel.SpecifierSet_of l' p) /\
+  (forall arg inst item, SetsModel.set_contains (SetsModel.SpecifierSet_of l p) arg inst item = SetsModel.set_contains (SetsModel.SpecifierSet_of l' p) arg inst item) /\
+  (forall arg texts, SetsModel.set_filter (SetsModel.SpecifierSet_of l p) arg texts = SetsModel.set_filter (SetsModel.SpecifierSet_of l' p) arg texts).
+Proof. exact (SetsSupply.supply_order_behaviour_perm l l' p). Qed.
+Print Assumptions C20_set_behaviour_supply_order.
